@@ -18,10 +18,17 @@
     across every step of any thread the object at that address stays the SAME object (it is not
     destroyed, so its address cannot be reused): address equality is identity equality
     ([C05_no_aba]).
+
+    RUN LEVEL ([ASModel.LinCas], all schedules within [Main.RunOK]): [C05_cas_linearizable] - a completed
+    compare_and_swap(current = a, new = b) leaves a guard on some p; if p <> a (reported failure) then p
+    was the content of the container in one of the states between call and return and NO step of the
+    call wrote the container; if p = a (reported success) then EXACTLY ONE step of the call wrote it,
+    and that write replaced exactly a by b (with [one_write_chain]: one link of the container's chain).
 *)
 From ASModel Require Import Base State Orderings_gen Step Run Progress Hist Inv InvTl InvProto InvStep Sum StepCases.
 From ASModel Require Import GenDefs Gen1 Gen2 Gen EnvDefs Env4 Env AccDefs Acc1 Acc2 Acc3 Acc4 Acc5 Acc6 Acc7 Acc.
 From ASModel Require Import ProtDefs Prot1 Prot11 Prot16 Prot Typed LinDefs Lin2 Lin Safe1 Safe2 Safe7 Safe8 Safe Main Alive.
+From ASModel Require Import LinCache LinCas1 LinCas2 LinCas3 LinCas4 LinCas5 LinCas6 LinCas LinCasR1 LinCasR4 LinCasRcu LinCasMain.
 
 Theorem C05_exchange_iff :
   forall cf s l c cur new p d x s' l' evs nx,
@@ -56,7 +63,28 @@ Theorem C05_no_aba : forall cf s t t' x c cur new p d,
    heap (sh (fst (step cf s t' x))) cur = heap (sh s) cur).
 Proof. exact cas_current_identity. Qed.
 
+Theorem C05_cas_linearizable : forall cf inits progs sched t i c cur new h2 a b pa pb xa tb xb,
+  let s0 := init_state inits progs in
+  let St := fun k => run_state cf s0 (firstn k sched) in
+  RunOK cf inits progs sched ->
+  (forall p, In p progs -> forall g, ~ In (CSetGen g) p) ->
+  nth_error (t_prog (thr s0 t)) (N.to_nat i) = Some (CCas c cur new h2) ->
+  (pa <= pb)%nat ->
+  nth_error sched pa = Some (t, xa) ->
+  t_status (thr (St pa) t) = Running -> t_stack (thr (St pa) t) = [] -> t_cmdi (thr (St pa) t) = i ->
+  cmd_enabled (St pa) (CCas c cur new h2) = true ->
+  src_val (St pa) cur = Some a -> src_val (St pa) new = Some b ->
+  nth_error sched pb = Some (tb, xb) ->
+  t_cmdi (thr (St pb) t) = i -> t_cmdi (thr (St (S pb)) t) = i + 1 ->
+  exists p d, hnd (St (S pb)) h2 = HGuard p d /\
+    ((p <> a /\
+      (exists j, (pa + 1 <= j <= pb + 1)%nat /\ mem (sh (St j)) (LStore c) = p) /\
+      no_write cf s0 sched t c pa pb)
+     \/ (p = a /\ exists j, one_write cf s0 sched t c a b pa pb j)).
+Proof. exact cas_linearizable_runok. Qed.
+
 Print Assumptions C05_exchange_iff.
 Print Assumptions C05_compare_before_exchange.
 Print Assumptions C05_success_returns_current.
 Print Assumptions C05_no_aba.
+Print Assumptions C05_cas_linearizable.
